@@ -45,6 +45,7 @@ pub struct Shared {
     pub write_half_dropped: bool,
     pub closed: bool,
     pub recv_calls: u64,
+    pub eof_returns: u64, // how often the scripted EOF (Ok(0)) has been handed out
     pub send_calls: u64,
     pub log_io: bool,
     /// After a sendmsg has written its bytes, return Pending once before reporting completion (a
@@ -71,6 +72,7 @@ pub fn new_shared() -> Sh {
         write_half_dropped: false,
         closed: false,
         recv_calls: 0,
+        eof_returns: 0,
         send_calls: 0,
         log_io: true,
         yield_after_write: false,
@@ -173,6 +175,15 @@ impl Future for RecvFut<'_> {
         }
         match s.read_fault {
             Fault::Eof => {
+                s.eof_returns += 1;
+                if s.eof_returns > 64 {
+                    // The reader keeps calling recvmsg although it has been told 64 times that the stream is
+                    // at its end: it ignores EOF.  Report it once and park the call, so that the run ends.
+                    if s.eof_returns == 65 {
+                        s.events.push(json!({"ev":"ReaderSpin","eof_returns":64}));
+                    }
+                    return Poll::Pending;
+                }
                 s.events.push(json!({"ev":"Recvmsg","buflen":this.buf.len(),"n":0,"nfds":0,"fault":"eof"}));
                 Poll::Ready(Ok((0, vec![])))
             }
